@@ -94,6 +94,7 @@ type Engine struct {
 	Witness    *Violation // reachability witness (model of a completed path)
 	nsel       int
 	nclock     int
+	ntoken     int
 	durStrs    map[*term.Term]*term.Term
 	fnIDs      map[*ssa.Function]int
 
